@@ -102,7 +102,21 @@ def callback_families(g, rng):
             return g.parse('-1!')[0]
         return n
 
-    return [identity, u1_to_v1, v1_to_str, b2_to_list, t3_with_meta, q5_without_meta, infix_to_prefix, rebuild, z0_to_none,
+    def unwrap_b2(n):
+        # hands back an object that is part of the INPUT tree (a child of the node, untouched by the
+        # earlier transformation of the children unless one of them changed)
+        if isinstance(n, g.B2) and isinstance(n.a, g.ParsedObject):
+            return n.a
+        return n
+
+    def hoist_operand(n):
+        if isinstance(n, (g.Infix, g.Postfix)) and isinstance(n.left, g.ParsedObject):
+            return n.left
+        if isinstance(n, g.T3) and isinstance(n.b, g.ParsedObject):
+            return n.b
+        return n
+
+    return [unwrap_b2, hoist_operand, identity, u1_to_v1, v1_to_str, b2_to_list, t3_with_meta, q5_without_meta, infix_to_prefix, rebuild, z0_to_none,
             wrap_v1, wrap_b2_in_list, u1_to_parsed_operator, b2_to_parsed_prefix]
 
 
